@@ -68,7 +68,9 @@ def corpus(ctx):
             dict(kind='seq', sig=[0, 2, 0, 2, 0, 2, 1], peaks=[5], troughs=[0]),
             dict(kind='seq', sig=[1, 0, 1], peaks=[], troughs=[1]),
             # pre-fix F (052c5d2): the flank midpoint (a + b) / 2 wrapped in the signal's own integer type
-            dict(kind='seq', sig=[1, 1, 2, 2, 2], peaks=[4], troughs=[0], dt='int16')]
+            dict(kind='seq', sig=[1, 1, 2, 2, 2], peaks=[4], troughs=[0], dt='int16'),
+            # a LOUD stretch (sum of |samples| about 2^30: a single-precision running total no longer resolves 20 counts) before QUIET asymmetric flanks, as ADC counts
+            dict(kind='seq', sig=[30000, -30000] * 20000 + [-20, 14, 16, 18, 19, 20, 19, 18, -16, -19, -20], peaks=[40005], troughs=[40000, 40010], raw_dt='int16')]
 
 def generate(ctx):
     cases = []
@@ -141,6 +143,8 @@ def evaluate(ctx, cases):
         sig = proto.hex2arr(c['sig']) if c['kind'] in ('signal', 'seqf') else np.array(c['sig'], dtype=float)
         if c.get('dt'):
             sig = (np.array(c['sig']) * INT_MUL[c['dt']]).astype(c['dt'])
+        if c.get('raw_dt'):
+            sig = np.array(c['sig']).astype(c['raw_dt'])
         if c.get('scale'):
             sig = sig * 2.0 ** c['scale']
         sigs.append(sig)
@@ -151,7 +155,7 @@ def evaluate(ctx, cases):
     out = []
     for i, c in enumerate(cases):
         model, spec = ans[2 * i], ans[2 * i + 1]
-        impl = _impl(sigs[i], c['peaks'], c['troughs'], c.get('dt'))
+        impl = _impl(sigs[i], c['peaks'], c['troughs'], c.get('dt') or c.get('raw_dt'))
         corr_ok = impl == model
         judge_ok = True if spec == 'invalid-seq' else impl == spec
         tie = False
